@@ -4,59 +4,6 @@ import Pk.Proofs.MgrTruthEvB
 namespace Pk.Props.C06Reach
 open Pk.Mgr Pk.Props.MgrReach Pk.Proofs.MgrTruth Pk.Proofs.MgrTags
 
-/-- an edit of the job's own tag (other than `updQuery`) that leaves the snapshot's text in place was a
-    no-op for that tag (`JobTextOK`): the job invariant is kept -/
-theorem job_edit_self (s : St) (e : Ev) (st : Started) (T T' g : Truth) (hg : Good s T g)
-    (hne : ∀ n r, e ≠ .tagDone n r) (hnq : ∀ n d f, e ≠ .updQuery n d f)
-    (hni : ∀ p u c a b d, e ≠ .importDone p u c a b d) (herr : (step s e st).2 ≠ Res.err)
-    (jn : String) (snap : Tag) (held : List Nat) (hj : s.jTag = some (jn, snap, held)) (hE : C06.Edits e jn)
-    (hjt : Live (step s e st).1 jn snap → Live s jn snap ∧ ∀ id, id < s.next → T' jn id = T jn id) :
-    JobInv (step s e st).1 T' g := by
-  have hr := hg.reach
-  refine jobInv_mono s e st T T' g hr hg.job hne jn snap held hj ?_ ?_ ?_
-  · intro id h1 h2
-    rw [(Pk.Proofs.MgrReach.step_all_next_other s e st hni).2] at h2; omega
-  · intro ot' hot' hd'
-    obtain ⟨⟨ot, hot, hd⟩, _⟩ := hjt ⟨ot', hot', hd'⟩
-    refine ⟨ot, hot, hd, ?_⟩
-    cases e with
-    | tagDone n res => exact absurd rfl (hne n res)
-    | updQuery n d f => exact absurd rfl (hnq n d f)
-    | addTag name color defn f =>
-      have hn : name = jn := hE
-      subst hn
-      have := (addTag_ok s name color defn f st (res_ok_addTag s name color defn f st herr)).1
-      rw [hot] at this; cases this
-    | updName name new =>
-      rcases updName_ok s name new st (res_ok_updName s name new st herr) with h1 | ⟨t0, _, _, hnew, _, hgone, _⟩
-      · rw [h1, hot] at hot'; cases hot'; exact ⟨rfl, rfl⟩
-      · have hn : name = jn ∨ new = jn := hE
-        rcases hn with hn | hn
-        · subst hn; rw [hgone] at hot'; cases hot'
-        · subst hn; rw [hnew] at hot; cases hot
-    | markAdd name ids =>
-      have hn : name = jn := hE
-      subst hn
-      obtain ⟨t', h', _, ha⟩ := step_markAdd_self s name ids st ot hot
-      rw [hot'] at h'; cases h'
-      obtain ⟨_, _, e3, e4⟩ := attrs_eq ha
-      exact ⟨e3, e4⟩
-    | markDel name ids =>
-      have hn : name = jn := hE
-      subst hn
-      obtain ⟨t', h', _, ha⟩ := step_markDel_self s name ids st ot hot
-      rw [hot'] at h'; cases h'
-      obtain ⟨_, _, e3, e4⟩ := attrs_eq ha
-      exact ⟨e3, e4⟩
-    | delTag name =>
-      have hn : name = jn := hE
-      subst hn
-      obtain ⟨_, _, _, hgone⟩ := delTag_ok s name st (res_ok_delTag s name st herr)
-      rw [hgone] at hot'; cases hot'
-    | _ => exact absurd hE (by simp [C06.Edits])
-  · intro ot _ _ _ _ hl' id hid hT
-    exact absurd ((hjt hl').2 id hid) hT
-
 theorem p5_get {L L' : List (String × Tag)} {n : String} {t0 : Tag}
     (h : (sget L' n).map (fun t => (t.mat, t.unc, t.defn, t.mainT, t.subT)) =
          (sget L n).map (fun t => (t.mat, t.unc, t.defn, t.mainT, t.subT))) (h0 : sget L n = some t0) :
@@ -77,8 +24,8 @@ theorem good_updQuery (s : St) (name defn : String) (f : Facts) (st : Started) (
     (hg : Good s T g) (hA' : C09.Acyclic (step s (.updQuery name defn f) st).1)
     (hok : (step s (.updQuery name defn f) st).2 = Res.ok)
     (hch : ChangesIn s s.next (fun n _ => n = name) T T')
-    (hjt : ∀ jn snap held, s.jTag = some (jn, snap, held) → name = jn → defn = snap.defn →
-        (F254 snap ∨ snap.sfeat ≠ 0)) :
+    (hjt : ∀ jn snap held, s.jTag = some (jn, snap, held) → ∀ t, sget s.tags name = some t →
+        t.gen = snap.gen → defn = snap.defn → (F254 snap ∨ snap.sfeat ≠ 0)) :
     C06.Inv (step s (.updQuery name defn f) st).1 T' ∧
     (∀ jn' snap held', s.jTag = some (jn', snap, held') → JobInv (step s (.updQuery name defn f) st).1 T' g) := by
   have hr := hg.reach
@@ -137,37 +84,35 @@ theorem good_updQuery (s : St) (name defn : String) (f : Facts) (st : Started) (
     · intro n hE t' h' id hid hnu
       have hn : name = n := hE
       subst hn
-      obtain ⟨_, t2, _, h2, _, _, _, _, _, hallp⟩ := updQuery_ok s name defn f st hok
+      obtain ⟨_, t2, _, h2, _, _, _, _, _, hallp, _⟩ := updQuery_ok s name defn f st hok
       rw [h'] at h2; cases h2
       exact absurd (hallp id (by omega)) hnu
   · intro jn' snap held' hjt'
     have htag : s.tag = true := hr.jobsWF.1.2 (by rw [hjt']; rfl)
     have mr := updQuery_masks s name defn f st hok htag
     have hne : ∀ n r, Ev.updQuery name defn f ≠ .tagDone n r := fun n r h => by cases h
-    by_cases hn : name = jn'
-    · subst hn
-      obtain ⟨hj', _, _, _, _⟩ := job_stable s _ st (name, snap, held') hjt' htag hne
-      intro jn2 snap2 held2 ot' hj2 hot' hd'
-      rw [hj'] at hj2
-      cases hj2
-      obtain ⟨_, t2, _, h2, hdef, _⟩ := updQuery_ok s name defn f st hok
-      rw [hot'] at h2; cases h2
-      left
-      intro id hid
-      rw [hnext] at hid
-      have hrst := mr id (by omega)
-      rcases hjt name snap held' hjt' rfl (hdef.symm.trans hd') with h | h
-      · exact Or.inr (Or.inr (Or.inl ⟨hrst, h⟩))
-      · exact Or.inr (Or.inl ⟨h, masksNE_of_mem (Or.inr (Or.inl hrst))⟩)
-    · have hE : ¬ C06.Edits (.updQuery name defn f) jn' := hn
-      refine jobInv_mono s _ st T T' g hr hg.job hne jn' snap held' hjt' ?_
-        (h1_of_not_edits s _ st jn' snap hE) ?_
-      · intro id h1 h2
-        rw [hnext] at h2; omega
-      · intro ot hot hd _ _ _ id hid hT
-        have hrefs := hr.factsOK.1 jn' snap held' ot hjt' hot hd
+    refine jobInv_mono s _ st T T' g hr hg.job hne jn' snap held' hjt' ?_ ?_
+    · intro id h1 h2
+      rw [hnext] at h2; omega
+    · intro n' ot' hot' hg' hd'
+      by_cases hn : name = n'
+      · subst hn
+        obtain ⟨t0, t2, ht0, h2, hdef, _, _, _, _, _, egen⟩ := updQuery_ok s name defn f st hok
+        rw [hot'] at h2; cases h2
+        left
+        intro id hid
+        rw [hnext] at hid
+        have hrst := mr id (by omega)
+        rcases hjt jn' snap held' hjt' t0 ht0 (egen ▸ hg') (hdef.symm.trans hd') with h | h
+        · exact Or.inr (Or.inr (Or.inl ⟨hrst, h⟩))
+        · exact Or.inr (Or.inl ⟨h, masksNE_of_mem (Or.inr (Or.inl hrst))⟩)
+      · have hE : ¬ C06.Edits (.updQuery name defn f) n' := hn
+        obtain ⟨ot, hot, hg0, hd, ha⟩ := pre_of_not_edits s _ st n' snap ot' hE hot' hg' hd'
+        refine Or.inr ⟨n', ot, hot, hg0, hd, ha, ?_⟩
+        intro hA id hid hT
+        obtain ⟨r1, r2, _⟩ := attrs_eq hA
         have hlt : id < s.all := by omega
-        refine job_cover hot hrefs.1 hrefs.2 (hch jn' ot hot id hid hT) ?_ ?_ ?_ ?_
+        refine job_cover hot r1 r2 (hch n' ot hot id hid hT) ?_ ?_ ?_ ?_
         · intro hB; exact absurd hB.symm hn
         · intro r _ hd'
           exact Or.inr (P r id hd' hlt)
